@@ -413,7 +413,7 @@ func CheckV6(c *fw.Ctx, scope string, order int64, in []byte) bool {
 	class := "well-formed"
 	switch rv {
 	case v6ref.MayReject:
-		class = "name:pointer-chain"
+		class = "may-reject:" + why
 	case v6ref.Unspecified:
 		class = shortClass[why]
 		if class == "" {
@@ -624,7 +624,7 @@ func Run(c *fw.Ctx) {
 	areas(c, "v6.a4:option-areas(relay)", RelayHdr6, a4, n4, &ord, CheckV6)
 
 	// ---- name payloads: every string over the name alphabet as the value of options 24, 39 (after a flags octet) and 56/3
-	na := []byte{0x00, 0x01, 0x02, 0x03, 'a', 0xc0, 0x40, 0x80}
+	na := []byte{0x00, 0x01, 0x02, 0x03, 'a', '.', 0xc0, 0x40, 0x80} // '.' inside a label: the library joins labels with dots
 	nN := 6
 	if c.Thorough() {
 		nN = 8
